@@ -9,6 +9,7 @@ import (
 	"math/big"
 	"os"
 	"path/filepath"
+	"runtime"
 	"strings"
 
 	"github.com/ethereum/go-ethereum"
@@ -186,6 +187,9 @@ func genPred(r *hx.Rand, pool [][]byte, valid bool) ss.LogPredicate {
 		ref = ss.LogValueRef{Offset: uint64(4 + r.Intn(5))}
 	default:
 		ref = ss.LogValueRef{Dynamic: true, Offset: uint64(4 + r.Intn(5))}
+	}
+	if ref.Offset >= 4 && r.Chance(6) { // a valid reference far behind the end of any log's data
+		ref.Offset = []uint64{4 + 1<<16, 4 + 1<<18, 4 + 1<<21}[r.Intn(3)]
 	}
 	op := ss.Op(r.Intn(6))
 	if r.Chance(30) { // topic BytesEq predicates are what the node-side filter is built from
@@ -551,6 +555,11 @@ func Run(cfg Config) (int, error) {
 		res.Violate(hx.Violation{Kind: kind, Key: key, What: what, Replay: path})
 	}
 	encodings := [][]byte{}
+	type heldEnc struct {
+		got, copy []byte
+		ds        string
+	}
+	held := []heldEnc{}
 	for i := 0; i < nDefs && len(res.Violations) == 0; i++ {
 		wantValid := r.Chance(80)
 		d, pool := genDef(r, wantValid)
@@ -563,7 +572,21 @@ func Run(cfg Config) (int, error) {
 			continue
 		}
 		enc := d.MarshalBytes()
-		encodings = append(encodings, enc)
+		// the encodings handed out earlier are still what they were
+		for _, h := range held {
+			if !bytes.Equal(h.got, h.copy) {
+				violate("spec", "roundtrip", fmt.Sprintf("the encoding of %s, kept by its caller, changed when %s was encoded: was %s, is %s", h.ds, ds, hexB(h.copy), hexB(h.got)), []string{"TD enc " + h.ds, "TD enc " + ds})
+				break
+			}
+		}
+		if len(res.Violations) > 0 {
+			break
+		}
+		held = append(held, heldEnc{enc, append([]byte{}, enc...), ds})
+		if len(held) > 4 {
+			held = held[1:]
+		}
+		encodings = append(encodings, append([]byte{}, enc...))
 		add("TD enc "+ds, hexB(enc), "marshal")
 		// property on the implementation: decode(encode(d)) is d, and a filter exists
 		back, out, p := implUnmarshal(enc)
@@ -581,7 +604,26 @@ func Run(cfg Config) (int, error) {
 		for k := 0; k < logsPer; k++ {
 			l := genLog(r, d, pool)
 			ls := showLog(l)
+			far := false
+			for _, lp := range d.LogPredicates {
+				if lp.LogValueRef.Offset > 1<<12 {
+					far = true
+				}
+			}
+			var before runtime.MemStats
+			if far {
+				runtime.ReadMemStats(&before)
+			}
 			m, p := implMatch(d, l)
+			if far {
+				var after runtime.MemStats
+				runtime.ReadMemStats(&after)
+				res.Count("match:far-reference-measured")
+				if got, budget := after.TotalAlloc-before.TotalAlloc, uint64(1<<16+64*len(l.Data)+len(enc)*64); got > budget {
+					violate("spec", "allocation", fmt.Sprintf("matching a log with %d bytes of data allocated %d bytes (budget %d): the work follows the definition's offset, not the log's size: d=%s", len(l.Data), got, budget, ds), []string{"TD match " + ds + " " + ls})
+					break
+				}
+			}
 			res.Evaluations++
 			res.Count("match:" + m)
 			if p != "" {
